@@ -172,6 +172,24 @@ K("C02.K.seq_len_unknown_kind", EM, "verif_emit::seq_len_unknown_kind", {"C02": 
 K("C02.K.collect_str", EM, "verif_emit::emit_collect_str", {"C02": "D"}, label="bounded(2 pieces of <=2 bytes)", fns=[SER + "collect_str"],
   note="collect_str(d) == varint(total formatted length) ++ formatted text, through core::fmt")
 
+# ---------------------------------------------------------------- C02 emitters, Route V: the real Serializer methods, generic over the flavour contract, all values
+_EMW = {"serialize_u8": "raw", "serialize_bool": "raw", "serialize_str": "str_bytes", "serialize_bytes": "str_bytes",
+        "serialize_none": "option_unit_newtype", "serialize_some": "option_unit_newtype", "serialize_unit": "option_unit_newtype",
+        "serialize_unit_struct": "option_unit_newtype", "serialize_newtype_struct": "option_unit_newtype",
+        "serialize_unit_variant": "variants", "serialize_newtype_variant": "variants",
+        "serialize_tuple_variant": "variants2", "serialize_struct_variant": "variants2",
+        "serialize_seq": "compound", "serialize_map": "compound", "serialize_tuple": "compound", "serialize_tuple_struct": "compound", "serialize_struct": "compound"}
+for _b in [16, 32, 64, 128]:
+    _EMW["serialize_u%d" % _b] = "u%d" % _b
+    _EMW["serialize_i%d" % _b] = "i%d" % _b
+for _m, _w in sorted(_EMW.items()):
+    V("C02.V.emit." + _m, "emit", "Serializer::" + _m, {"C02": "D", "C01": "S"}, fns=[SER + _m], witness="C02.K.emit." + _w,
+      note="{out==pre} " + _m + "(..) {Ok ==> out == pre ++ wire bytes}: real method, generic over ANY flavour meeting the flavour contract, every argument value (lengths / indices unbounded)")
+for _w in W:
+    V("C02.V.emit.try_push_varint_" + _w, "emit", "Serializer::try_push_varint_" + _w, {"C02": "D", "C01": "S"},
+      fns=["postcard::ser::serializer::Serializer::try_push_varint_" + _w], witness="C02.K.emit." + (_w if _w != "usize" else "compound"),
+      note="appends exactly enc(n) to the output stream (callee contract of varint_" + _w + " from unit varint)")
+
 # ---------------------------------------------------------------- C03 per-kind decoding through the public API; C04 totality
 C03M = "postcard/src/lib.rs::verif_c03"
 DES = "postcard::de::deserializer::<impl de::Deserializer for &mut Deserializer<F>>::"
@@ -439,7 +457,8 @@ A_PARAM = "parametricity: probe / marker element types stand for 'any T', one co
 ASSUMPTIONS = {
     "*": [A_TOOLS, A_HOST, A_STD],
     "C01": [A_SERDE, A_PARAM, "nesting to arbitrary depth is not proved as one theorem: per-kind round trips + composite probes (depth <= 3) + A-serde"],
-    "C02": [A_SERDE, A_PARAM, "Verus stub le0_* (x.to_le_bytes()[0] == x & 0xff) - discharged by Kani harnesses C02.K.stub.le0_*", "debug_assert_eq!(value, 0) dropped on Route V (D2); Kani checks it"],
+    "C02": [A_SERDE, A_PARAM, "Verus stub le0_* (x.to_le_bytes()[0] == x & 0xff) - discharged by Kani harnesses C02.K.stub.le0_*", "debug_assert_eq!(value, 0) dropped on Route V (D2); Kani checks it",
+            "unit emit: Flavor and Serialize are re-declared traits carrying the flavour contract (out' == out ++ data on Ok) and the payload hypothesis (a value appends wire()); str length/bytes through stubs str_len / str_as_bytes over an uninterpreted str_bytes (D17, std: len() == as_bytes().len()); array-length literals for varint_max::<T>() (D18, == C12.V.varint_max); .map_err(|_| BufferFull) dropped (D12); methods of `&mut Serializer<F>` taken by value are extracted as inherent `&mut self` methods (D15) and compound-state results Ok(self) as Ok(()) (D16); serialize_i8 / f32 / f64 / char / collect_str are not in the unit (Kani only)"],
     "C03": [A_SERDE, A_PARAM, "UTF-8 validity oracle for strings <= 3 bytes is written from Unicode Table 3-7; char oracle uses char::encode_utf8 (std)"],
     "C04": [A_SERDE, "A-cautious: serde's collection visitors cap pre-allocation by min(hint, 1 MiB / size_of::<T>()); the numeric allocation bound itself is not decided by any contract in reach", "MapAccess::size_hint returns Some(len) unconditionally (maps are outside the property's allocation clause; recorded, not alarmed)"],
     "C05": [A_SERDE, A_PARAM, "capacity running out at every byte position is covered per flavour contract (symbolic capacity), not as one API-level theorem"],
